@@ -10,6 +10,7 @@ import (
 	"os"
 	"os/exec"
 	"strings"
+	"time"
 )
 
 // Decoder kinds, in the order of the driver's xforms[] table.
@@ -114,7 +115,14 @@ func (d *driver) w64(v uint64) {
 	d.in.Write(b[:])
 }
 
+// opNanos accumulates wall time per request kind (harness cost accounting
+// only; reported as probes, never part of a verdict).
+var opNanos = map[byte]int64{}
+var opCount = map[byte]int64{}
+
 func (d *driver) flush(op byte) {
+	t0 := time.Now()
+	defer func() { opNanos[op] += time.Since(t0).Nanoseconds(); opCount[op]++ }()
 	if err := d.in.Flush(); err != nil {
 		d.fail("write", err)
 	}
@@ -188,10 +196,18 @@ type callArgs struct {
 	dstSpace int
 	workLen  int
 	argShape int
+	// consumer actions since the previous call, executed by the driver
+	// before the call in the same round trip
+	preDrain   int // -1 = none
+	preCompact bool
+	retain     int
+	relocate   bool
 }
 
 // callObs is the observation record of one call: facts only.
 type callObs struct {
+	drained     int // bytes the pre-drain took
+	moved       int // bytes the pre-compaction discarded from the front
 	status      string
 	srcRi       int
 	srcOK       bool
@@ -212,6 +228,25 @@ type callObs struct {
 func (d *driver) call(a callArgs) callObs {
 	d.calls++
 	d.w8('C')
+	var pre uint8
+	if a.preDrain >= 0 {
+		pre |= 1
+	}
+	if a.preCompact {
+		pre |= 2
+	}
+	d.w8(pre)
+	if a.preDrain >= 0 {
+		d.w32(uint32(a.preDrain))
+	}
+	if a.preCompact {
+		d.w32(uint32(a.retain))
+		if a.relocate {
+			d.w8(1)
+		} else {
+			d.w8(0)
+		}
+	}
 	d.w32(uint32(len(a.src)))
 	d.in.Write(a.src)
 	d.w32(uint32(a.srcRi))
@@ -226,6 +261,8 @@ func (d *driver) call(a callArgs) callObs {
 	d.w32(uint32(a.argShape))
 	d.flush('C')
 	var o callObs
+	o.drained = int(d.r32())
+	o.moved = int(d.r32())
 	o.status = d.rstatus()
 	o.srcRi = int(d.r32())
 	o.srcOK = d.r8() != 0
